@@ -863,7 +863,10 @@ qb_rb_create_from_file(int32_t fd, uint32_t flags)
 		return NULL;
 	}
 	total_read += n_read;
-	if (write_pt > st.st_size || read_pt > st.st_size) {
+	/*
+	 * Both pointers index the words of the ring.
+	 */
+	if (write_pt >= word_size || read_pt >= word_size) {
 		qb_util_perror(LOG_ERR, "Invalid pointers read from blackbox header");
 		return NULL;
 	}
